@@ -97,5 +97,7 @@ func genC15(c *Ctx) {
 	}
 	c15Conv(c)
 	c15RejectedFragments(c)
+	c15TaglessFragments(c)
+	c14V3Arrivals(c, 40)
 	c10ReservedTagDraws(c) // every output of the random source when the own tag is drawn
 }
